@@ -1,19 +1,22 @@
-(** C02.2/5 -- for EVERY expression of the ring fragment of the DSL (inputs, numbers, nested time shifts,
-    .ss, unary minus, plus, minus, times), every steady state, input x0 and dates t, s >= 0: an entry reported by the
-    accumulator denotes the formal derivative d eval_t / d x0_s of the infinite time-path map at the steady
-    state; an entry reported ABSENT has derivative zero everywhere. *)
+(** C02.2/5 -- for EVERY expression of the DSL built from inputs, numbers, nested time shifts, .ss, unary minus, plus,
+    minus, times, DIVISION and positive integer POWERS, every steady state at which no divisor vanishes, every input x0 and
+    dates t, s >= 0: an entry reported by the accumulator denotes the formal derivative d eval_t / d x0_s of the infinite
+    time-path map at the steady state (sum, product, QUOTIENT and POWER rules; shifts commute with differentiation); an entry
+    reported ABSENT has derivative zero everywhere.  Any commutative ring with a division satisfying a/b = a * inv b,
+    inv a * a = 1 and a*a <> 0 for a <> 0 (every field: reals, rationals). *)
 From Coq Require Import ZArith Bool List Ring.
 From SSJ Require Import Lib.Sums Model.Shift Model.Sparse Gen.MultiplyBasis Gen.ComputeL Model.SimpleBlk Proofs.SimpleBlkProofs.
 Import ListNotations.
 Open Scope Z_scope.
 
-Theorem jac_is_formal_derivative : forall (R : Type) (rO rI : R) (radd rmul rsub : R -> R -> R) (ropp : R -> R),
+Theorem jac_is_formal_derivative : forall (R : Type) (rO rI : R) (radd rmul rsub : R -> R -> R) (ropp : R -> R) (rdiv : R -> R -> R) (rinv : R -> R),
   ring_theory rO rI radd rmul rsub ropp eq ->
+  (forall a b, rdiv a b = rmul a (rinv b)) -> (forall a, a <> rO -> rmul (rinv a) a = rI) -> (forall a, a <> rO -> rmul a a <> rO) ->
   forall tiny : R -> bool, (forall x, tiny x = true -> x = rO) ->
-  forall ss x0 e,
-  match jac_entry R rI radd rmul rsub ropp tiny ss x0 e with
-  | None => forall t s, 0 <= t -> 0 <= s -> deriv R rO rI radd rmul rsub ropp ss x0 s e t = rO
-  | Some Sp => wf R Sp /\ forall t s, 0 <= t -> 0 <= s -> deriv R rO rI radd rmul rsub ropp ss x0 s e t = sden R rO rI radd rmul Sp t s
+  forall ss x0 e, divs_ok R rO rI radd rmul rsub ropp rdiv ss e ->
+  match jac_entry R rO rI radd rmul rsub ropp rdiv tiny ss x0 e with
+  | None => forall t s, 0 <= t -> 0 <= s -> deriv R rO rI radd rmul rsub ropp rdiv ss x0 s e t = rO
+  | Some Sp => wf R Sp /\ forall t s, 0 <= t -> 0 <= s -> deriv R rO rI radd rmul rsub ropp rdiv ss x0 s e t = sden R rO rI radd rmul Sp t s
   end.
 Proof. intros; eapply jac_entry_correct; eassumption. Qed.
 Print Assumptions jac_is_formal_derivative.
